@@ -28,6 +28,7 @@ def main(tier):
     chk.run("R-EXACTNAME", B.exactname, r, floor=2)
     chk.run("R-TEXTNAME", B.textname, r, floor=2)
     chk.run("R-RENDERINT", B.renderint, r, floor=100)
+    chk.run("R-RENDERCONST", RG.renderconst, r, floor=30)
     chk.run("R-WIDTHS", lambda: cx.widths, floor=3000)
     chk.run("R-POSCHECK", V.poscheck, r, cx.schema, cx.sites, only=("EnumValue.",), floor=9)
     chk.run("R-BOUNDARY", RG.boundary, r, floor=130)
